@@ -266,12 +266,16 @@ H_req_b(s, e) ==
 Within(s, r) == \E x \in s.reqGen : x[1] = r /\ x[2] = s.gen /\ s.gen > 0 /\ x[3] \notin {"init", "hooked", "end"}
                                    /\ s.ph \notin {"hooked", "end"}
 
+(* the node is going down by itself (no interface left / all serving loops failed), nobody asked an interface to *)
+(* stop: a restart request that meets this may be ignored                                                         *)
+SelfDown(s) == s.ph \in {"noif", "stopped", "end"} /\ s.ishReq = {}
+
 H_req_e(s, e) ==
   IF e.exc # "" THEN {Fail(s, "E1.request raises")}
   ELSE LET sd == s.stopDone \/ Within(s, e.r) IN
        IF e.kind = "restart"
        THEN LET s1 == [s EXCEPT !.openR = @ \ {e.r}, !.freshR = @ \ {e.r}, !.stopDone = sd] IN
-            IF e.r \in s.freshR /\ ~s.shutAny THEN {[s1 EXCEPT !.pend = TRUE]}
+            IF e.r \in s.freshR /\ ~s.shutAny /\ ~SelfDown(s) THEN {[s1 EXCEPT !.pend = TRUE]}
             ELSE IF e.r \in s.freshR \/ (e.r \in s.openR /\ ~s.shutDone) THEN {s1, [s1 EXCEPT !.pend = TRUE]}
             ELSE {s1}
        ELSE {[s EXCEPT !.shutOpen = @ \ {e.r}, !.shutDone = TRUE, !.stopDone = sd]}
